@@ -18,6 +18,7 @@ class C12(PropBase):
     THOROUGH_RUNS = 40000
     QUICK_BUDGET_S = 60
     THOROUGH_BUDGET_S = 900
+    RUN_TIMEOUT_S = {"quick": 90.0, "thorough": 400.0}
     FAULT_KINDS = FAULTS
     RULE = (
         "A case is one executed operation (build/marshal/unmarshal/encode/decode/roundtrip/call) of a seeded history over a "
